@@ -106,8 +106,98 @@ def obs_lexicon(wn, lx):
             'all_extensions': [_spec(e) for e in lx.extensions(depth=-1)]}
 
 
+def route_bad(wn, w):
+    """objects reached by navigation (synset -> senses -> word, word -> senses -> synset, relation targets …)
+    report exactly what the same stored entity reports when it is listed directly by the same Wordnet.
+    Judged for explicit selections whose lexicons have distinct ids (the ambiguity of finding F5 aside)."""
+    lexs = w.lexicons()
+    if w._default_mode or len({l.id for l in lexs}) < len(lexs):
+        return []
+    out = []
+    fns = {'w': obs_word, 's': obs_sense, 'y': obs_synset}
+    listed = {}
+    for x in w.words():
+        listed[('w', _spec(x.lexicon()), x.id)] = obs_word(wn, x)
+    for x in w.senses():
+        listed[('s', _spec(x.lexicon()), x.id)] = obs_sense(wn, x)
+    for x in w.synsets():
+        listed[('y', _spec(x.lexicon()), x.id)] = obs_synset(wn, x)
+
+    def safe(f):
+        try:
+            r = f()
+            return r if isinstance(r, list) else [r]
+        except wn.Error:
+            return []
+
+    def chk(kind, e, route):
+        if len(out) >= 4 or not getattr(e, '_id', 0):
+            return
+        try:
+            k = (kind, _spec(e.lexicon()), e.id)
+        except Exception as ex:
+            out.append([route, [kind, '?', e.id], 'lexicon() raised ' + type(ex).__name__])
+            return
+        if k not in listed:
+            out.append([route, list(k), 'not among the entities this Wordnet lists'])
+            return
+        o = fns[kind](wn, e)
+        if o != listed[k]:
+            fld = [f for f in o if o[f] != listed[k].get(f)]
+            out.append([route, list(k), {'differs in': fld[:3], 'via route': {f: o[f] for f in fld[:2]}, 'listed': {f: listed[k].get(f) for f in fld[:2]}}])
+    for y in w.synsets():
+        for m in y.senses():
+            chk('s', m, 'synset.senses()')
+        for x in safe(y.words):
+            chk('w', x, 'synset.words()')
+        for t in y.get_related():
+            chk('y', t, 'synset.get_related()')
+    for x in w.words():
+        for m in x.senses():
+            chk('s', m, 'word.senses()')
+        for y in safe(x.synsets):
+            chk('y', y, 'word.synsets()')
+    for s_ in w.senses():
+        for x in safe(s_.word):
+            chk('w', x, 'sense.word()')
+        for y in safe(s_.synset):
+            chk('y', y, 'sense.synset()')
+        for t in s_.get_related():
+            chk('s', t, 'sense.get_related()')
+        for t in s_.get_related_synsets():
+            chk('y', t, 'sense.get_related_synsets()')
+    return out
+
+
+def route_bad_of(out):
+    """the `_route_bad` entries of one operation's output (an observation of all lexicons, or a battery)"""
+    bad = []
+    if isinstance(out, dict) and isinstance(out.get('scope'), dict):
+        bad += [[out.get('S'), b] for b in out['scope'].get('_route_bad', [])]
+    elif isinstance(out, list):
+        for o in out:
+            if isinstance(o, dict) and isinstance(o.get('scope'), dict):
+                bad += [[o.get('spec'), b] for b in o['scope'].get('_route_bad', [])]
+    return bad
+
+
+ROUTE_CLAUSE = 'an-entity-reached-by-navigation-reports-what-it-reports-when-listed-directly-by-the-same-Wordnet'
+
+
+def judge_routes(ctx, sc, outs):
+    if not isinstance(outs, list):
+        return
+    for k, o in enumerate(outs):
+        bad = route_bad_of(o)
+        if bad:
+            ctx.fail(ROUTE_CLAUSE, sc, {'op': k, 'args': {a: v for a, v in sc['ops'][k].items() if a not in ('k', 'res')} if k < len(sc.get('ops', [])) else None,
+                                         '[selection, [route, entity, difference]]': bad[:3]})
+            return
+
+
 def obs_scope(wn, w):
-    return {'words': [obs_word(wn, x) for x in w.words()],
+    return {'_route_bad': route_bad(wn, w),
+            'words': [obs_word(wn, x) for x in w.words()],
             'senses': [obs_sense(wn, x) for x in w.senses()],
             'synsets': [obs_synset(wn, x) for x in w.synsets()],
             'ilis': [[i.id, i.status, i.definition()] for i in w.ilis()]}
@@ -129,8 +219,20 @@ def _shortcuts_bad(s):
     return bad
 
 
+def _target_ili_bad(s):
+    """every relation target — a stored synset or a placeholder — carries its ILI: the `ili` property agrees with
+    the ILI the target was found by"""
+    bad = []
+    for t in s.get_related():
+        i = t.ili
+        got = i.id if i is not None else None
+        if t._ili and got != t._ili:
+            bad.append([_synref(t), {'ili property': got}])
+    return bad[:3]
+
+
 def obs_synset_x(wn, s):
-    return {'ref': _synref(s), '_shortcuts_bad': _shortcuts_bad(s),
+    return {'ref': _synref(s), '_shortcuts_bad': _shortcuts_bad(s), '_target_ili_bad': _target_ili_bad(s),
             'get_related': [_synref(t) for t in s.get_related()],
             'hypernyms': [_synref(t) for t in s.hypernyms()],
             'relations': {k: [_synref(t) for t in v] for k, v in s.relations().items()},
@@ -234,6 +336,18 @@ def _obs_scope_x(wn, w):
         for f in x.forms()[:2]:
             if str(f) not in forms:
                 forms.append(str(f))
+    # Wordnet.ili(id) finds exactly the ILIs that Wordnet.ilis() lists (oracle only)
+    listed_ilis = {i[0] for i in o['ilis'] if i[0] is not None}
+    bad_ili = []
+    for i_ in sorted({x.id for x in wn.ilis() if x.id}):
+        try:
+            w.ili(i_)
+            found = True
+        except wn.Error:
+            found = False
+        if found != (i_ in listed_ilis):
+            bad_ili.append([i_, 'ili(id) ' + ('finds it' if found else 'raises'), 'ilis() ' + ('lists it' if i_ in listed_ilis else 'does not list it')])
+    o['_ili_lookup_bad'] = bad_ili[:4]
     # taxonomy entry points take the Wordnet: roots / leaves of a part of speech are synsets of its selection
     import wn.taxonomy as _tax
     o['_tax'] = {}
@@ -321,9 +435,21 @@ def find(wn, op):
         except wn.Error:
             return 'error'
         f, p = op.get('form'), op.get('pos')
+
+        def wref(get):
+            try:
+                x = get()
+                return [_spec(x.lexicon()), x.id, [str(ff) for ff in x.forms()]]
+            except wn.Error:
+                return 'error'
+        senses_ = w.senses(f, p)
+        synsets_ = w.synsets(f, p)
         return {'words': [[_spec(x.lexicon()), x.id] for x in w.words(f, p)],
-                'senses': [[_spec(x.lexicon()), x.id] for x in w.senses(f, p)],
-                'synsets': [[_spec(x.lexicon()), x.id] for x in w.synsets(f, p)]}
+                'senses': [[_spec(x.lexicon()), x.id] for x in senses_],
+                'synsets': [[_spec(x.lexicon()), x.id] for x in synsets_],
+                # what the results lead to (oracle only): the word of a found sense, the words of a found synset
+                '_sense_words': [[_spec(x.lexicon()), x.id, wref(x.word)] for x in senses_],
+                '_synset_words': [[_spec(y.lexicon()), y.id, [wref(m.word) for m in y.senses()]] for y in synsets_]}
 
 
 def canon_battery(b, sort_forms_tail=True):
@@ -500,7 +626,12 @@ def run_ops_impl(wn, wnenv, scenario, batch_size=None):
                 f = d / f'res{k}.xml'
                 f.write_text(docs.to_xml(op['res']), encoding='utf-8')
                 try:
-                    wn.add(f, progress_handler=None)
+                    if op.get('_mem'):
+                        # the in-memory route: load the file, hand the resource over
+                        from wn import lmf as _lmf
+                        wn.add_lexical_resource(_lmf.load(f, progress_handler=None), progress_handler=None)
+                    else:
+                        wn.add(f, progress_handler=None)
                     outs.append({'ok': True})
                 except Exception as e:
                     outs.append({'ok': False, 'exc': type(e).__name__ + ': ' + str(e)[:200]})
@@ -530,7 +661,16 @@ def run_ops_impl(wn, wnenv, scenario, batch_size=None):
                         except wn.Error:
                             by[i] = 'error'
                     sts = ['active', 'provisional', 'deprecated', 'presupposed', 'proposed', 'nosuchstatus']
+                    via = {}
+                    for y_ in wn.synsets():
+                        i_ = y_.ili
+                        if i_ is not None and i_.id:
+                            via.setdefault(i_.id, [])
+                            if [i_.status, i_.definition()] not in via[i_.id]:
+                                via[i_.id].append([i_.status, i_.definition()])
                     outs.append({'all': [[i.id, i.status, i.definition()] for i in wn.ilis()], 'by_id': by,
+                                 # the ILI as the synsets carrying it report it (oracle only)
+                                 '_via_synsets': via,
                                  # the status filter of the listing, module level and on a Wordnet object (oracle only)
                                  '_by_status': {st: [[i.id, i.status] for i in wn.ilis(status=st)] for st in sts},
                                  '_by_status_w': {st: [[i.id, i.status] for i in wn.Wordnet().ilis(status=st)] for st in sts}})
